@@ -200,3 +200,55 @@ func VerifC02_HistoriesVsSpec() {
 	symx.Observe("root", h[:])
 	symx.Reach("end")
 }
+
+// value lengths of the pre-state of VerifC02_ReloadThenModify: an embedded leaf, a leaf at the
+// embedding threshold, a hashed leaf
+var c02PreLens = []int{1, 29, 33}
+
+// Two keys are written, the trie is committed to the store and reopened cold (every node is then
+// decoded from its stored blob, embedded children included), and one more update / overwrite /
+// delete follows: reads and the root still equal the specification's for the content.
+func VerifC02_ReloadThenModify() {
+	t, ndb := c02NewTrie()
+	model := map[string][]byte{}
+	for op := 0; op < 3; op++ {
+		k := c02Keys[symx.Choice("key", len(c02Keys))]
+		var l int
+		if op < 2 {
+			l = c02PreLens[symx.Choice("prelen", len(c02PreLens))]
+		} else {
+			l = c02ValLens[symx.Choice("len", len(c02ValLens))]
+		}
+		v := symx.Bytes("val", l)
+		symx.Check(t.TryUpdate(k, v) == nil, "update succeeds")
+		if l == 0 {
+			delete(model, string(k))
+		} else {
+			model[string(k)] = v
+		}
+		if op == 1 {
+			root, err := t.Commit(nil)
+			symx.Check(err == nil, "commit succeeds")
+			symx.Check(ndb.Commit(root, false) == nil, "database commit succeeds")
+			t2, err := NewTrie(root, NewDatabase(ndb.diskdb))
+			symx.Check(err == nil, "committed root can be reopened from the store alone")
+			if err != nil {
+				return
+			}
+			t = t2
+		}
+	}
+	h := t.Hash()
+	symx.Check(bytes.Equal(h[:], c02RefRoot(model)), "root after reload and modification equals the Yellow Paper root of the content")
+	for _, k := range c02Keys {
+		got, err := t.TryGet(k)
+		symx.Check(err == nil, "get succeeds")
+		want, ok := model[string(k)]
+		if !ok {
+			symx.Check(len(got) == 0, "absent key reads as empty")
+		} else {
+			symx.Check(bytes.Equal(got, want), "read returns the last value written")
+		}
+	}
+	symx.Reach("end")
+}
